@@ -76,6 +76,14 @@ def graph_schemas(doc: dict[str, Any]) -> dict[str, Any]:
             node["properties"][prop_key(doc, i)] = edge_property(e["kind"], e["to"])
             if e.get("req"):
                 node["required"].append(prop_key(doc, i))
+        style = doc.get("style")
+        if style in ("typeless", "atleast"):
+            # an object schema need not say `type: object` when it has `properties`; "atleast" adds the usual at-least-one-of idiom,
+            # a constraint-only anyOf whose members declare no properties of their own
+            node.pop("type")
+            if style == "atleast":
+                own = [k for k in node["properties"] if k != "id" and not k.startswith(MARK)]
+                node["anyOf"] = [{"required": ["id"]}, {"required": [own[0] if own else "id"]}]
         schemas[n] = node
     return schemas
 
